@@ -35,10 +35,11 @@ JAVA_OPTS = {"JAVA_TOOL_OPTIONS": "-XX:CICompilerCount=2"}
 def _design_jobs(q):
     small = {"MaxBoxes": 2}
     main = {"MaxBoxes": 3}
+    big = {"MaxBoxes": 4}
     side = small if q else main
     jobs = [
-        ("contract", "BihMC", main, "ok", 2 if q else 1, 2),
-        ("ascoded", "BihMC_ascoded", side, "ok", 1, 1 if q else 2),
+        ("contract", "BihMC", main if q else big, "ok", 1, 2),
+        ("ascoded", "BihMC_ascoded", small if q else big, "ok", 1, 1 if q else 2),
         ("f1", "BihMC_f1", side, "FindOK", 1, 1),
         ("mut_centre", "BihMC_mut_centre", side, "StructOK", 1, 1),
         ("mut_noright", "BihMC_mut_noright", side, "FindOKModuloOnPlane", 1, 1),
@@ -235,7 +236,7 @@ def run(ctx):
 
     # ------------------------------------------------------------------ batch 2: trace validation + big design runs
     # the runs are concatenated (Config ... Close Config ... Close) into a few balanced files: one JVM each
-    nbins = 2 if q else 4
+    nbins = 3 if q else 4
     order = sorted(traces, key=lambda t: -os.path.getsize(t[2]))
     bins = [{"path": ctx.path("bin%d.ndjson" % i), "parts": [], "size": 0, "n": 0} for i in range(nbins)]
     for t in order:
@@ -255,15 +256,16 @@ def run(ctx):
                 nl = txt.count("\n")
                 b["spans"].append((off + 1, off + nl, t))
                 off += nl
-    tj = [job for name, expect, job in late]
-    for b in bins:
+    tj = []
+    for b in bins:   # the long jobs first
         e = dict(JAVA_OPTS)
         e["TRACE"] = b["path"]
         tj.append(dict(module="BihTrace", cfg="BihTrace", workers=1, env=e, timeout=6000, heap="5g"))
-    res2 = vlib.tlc_parallel(tj, maxpar=3 if q else 4)   # quick: contract has 2 workers
-    for (name, expect, job), r in zip(late, res2[:len(late)]):
+    tj += [job for name, expect, job in late]
+    res2 = vlib.tlc_parallel(tj, maxpar=4)
+    trace_res = res2[:len(bins)]
+    for (name, expect, job), r in zip(late, res2[len(bins):]):
         design_res[name] = r
-    trace_res = res2[len(late):]
     vlib.log("TLC wall: " + " ".join("%s=%.0fs" % (n, design_res[n].wall) for n in design_res)
              + " | gen " + " ".join("%s=%.0fs" % (g[0], r.wall) for g, r in zip(gens, gen_res))
              + " | traces " + " ".join("%.0fs" % r.wall for r in trace_res))
